@@ -211,6 +211,11 @@ var e2eCounter int64
 
 // startE2E creates and serves a service on the given transport.
 func startE2E(ifaces []string, transport string, allowIO bool) (*e2eEnv, error) {
+	return startE2EWith(context.Background(), ifaces, transport, allowIO)
+}
+
+// startE2EWith: the serving context is derived from parent (which may carry a deadline).
+func startE2EWith(parent context.Context, ifaces []string, transport string, allowIO bool) (*e2eEnv, error) {
 	ident := [4]string{"verif-vendor", "verif \"product\"", "1.0", "http://verif.example/é"}
 	s, err := varlink.NewService(ident[0], ident[1], ident[2], ident[3])
 	if err != nil {
@@ -227,7 +232,7 @@ func startE2E(ifaces []string, transport string, allowIO bool) (*e2eEnv, error) 
 			return nil, fmt.Errorf("HARNESS: RegisterInterface(%q): %v", n, err)
 		}
 	}
-	ctx, cancel := context.WithCancel(context.Background())
+	ctx, cancel := context.WithCancel(parent)
 	e.cancel = cancel
 	id := fmt.Sprintf("verif-%d-%d", os.Getpid(), atomic.AddInt64(&e2eCounter, 1))
 	switch transport {
